@@ -63,6 +63,8 @@ def check_weaver(ctx, wm: WeaverModel):
     if mf is None or tf is None:
         raise AnalysisError('C16.2: Weaver.smooth / to_function not found')
     ls = last_stores(mf)
+    # a field re-assigned the value it already has (self.x = self.x through a shared "apply" helper) is not a write
+    ls = {f: es for f, es in ls.items() if not (f in wm.fields and same(es[-1].data['value'], wm.fields[f]))}
     ctx.check(list(ls) == ['y'], 'C16.2', 'smooth writes only y', f"writes {list(ls)}", mf.fi.loc(), mf.fi.qualname, 'smooth-frame')
     v = arr_term(ls['y'][-1].data['value']) if 'y' in ls else None
     ok = isinstance(v, Term) and v.head == 'apply' and len(v.args) == 2 and not v.kwargs and same(v.args[1], wm.fields['x'])
